@@ -65,7 +65,12 @@ type Rows struct {
 	Rows    [][]any
 }
 
-// Canon renders a value canonically: integers and integral floats coincide (Cypher and JSON equality), map keys sorted.
+// SortLists makes Canon render every list as a sorted bag. The checks switch it on (per process) for queries whose
+// lists come from collect(): the element order of an aggregated list is not defined without an ORDER BY.
+var SortLists = false
+
+// Canon renders a value canonically: integers and integral floats coincide (Cypher and JSON equality), map keys
+// sorted, floats rounded to 12 significant digits (float8 output and numeric division do not agree beyond that).
 func Canon(v any) string {
 	var sb strings.Builder
 	canon(&sb, v)
@@ -92,7 +97,7 @@ func canon(sb *strings.Builder, v any) {
 		if t == math.Trunc(t) && math.Abs(t) < 1e15 {
 			sb.WriteString(strconv.FormatInt(int64(t), 10))
 		} else {
-			sb.WriteString(strconv.FormatFloat(t, 'g', -1, 64))
+			sb.WriteString(strconv.FormatFloat(t, 'g', 12, 64))
 		}
 	case json.Number:
 		if i, err := t.Int64(); err == nil {
@@ -105,6 +110,15 @@ func canon(sb *strings.Builder, v any) {
 	case string:
 		sb.WriteString(strconv.Quote(t))
 	case []any:
+		if SortLists {
+			parts := make([]string, len(t))
+			for i, e := range t {
+				parts[i] = Canon(e)
+			}
+			sort.Strings(parts)
+			sb.WriteString("bag[" + strings.Join(parts, ",") + "]")
+			return
+		}
 		sb.WriteString("[")
 		for i, e := range t {
 			if i > 0 {
